@@ -95,11 +95,14 @@ theorem sq_det1_add_det3 (F : ℝ → ℝ) (hF : Continuous F) (theta : ℝ) :
     funext x; unfold g3 g7; exact Real.sin_sq_add_cos_sq _
   rw [this, QG.Spec.integ_const]; simp
 
-/-- the cross-resonance drift (hard-coded constant-pulse closed forms) adds up to the duration `a` -/
-theorem cr_det1_add_det3 (t_cr theta : ℝ) (h : theta ≠ 0) :
-    CR.det1 t_cr theta + CR.det3 t_cr theta = CR.a t_cr := by
+/-- the cross-resonance drift (hard-coded constant-pulse closed forms, with their limits at `theta = 0`) adds up to the
+duration `a`, for every angle -/
+theorem cr_det1_add_det3 (theta t_cr : ℝ) :
+    CR.det1 theta t_cr + CR.det3 theta t_cr = CR.a t_cr := by
   unfold CR.det1 CR.det3
-  field_simp
-  ring
+  split_ifs with h
+  · simp
+  · field_simp
+    ring
 
 end QG.Lemmas.Gates
